@@ -446,6 +446,17 @@ func (r *Runner) step(i int, op Op) {
 		}
 	case "check":
 		r.CheckAll("check")
+	case "list":
+		// a directory listing in the middle of a history: it only has to succeed
+		// here; what it leaves behind in the tree's cached node state is judged by
+		// the listings taken at the end of the history
+		_, err := r.S.Get("@" + op.Key)
+		r.tracef("list @%s err=%v", op.Key, err)
+		if err != nil {
+			r.violate("list-error", "get @%s returned error: %v", op.Key, err)
+			return
+		}
+		r.Rep.Event("list.mid_history", 1)
 	default:
 		r.violate("bad-op", "unknown op %q", op.K)
 	}
